@@ -68,6 +68,12 @@ class Chunks(Harness):
                         out.append(dict(fmt=fmt, rows=rows[::-1], mode=mode, no_final_newline=True, crlf=True, header=[]))
         out.append(dict(fmt="bed3", rows=[[1, 1, 1], [1, 2, 3], [2, 1, 1]], mode="seek", no_final_newline=False, crlf=False, header=[], join_lazy=True))
         out.append(dict(fmt="bed3", rows=[[1, 1, 1], [3, 1, 1], [1, 1, 1], [1, 2, 2]], mode="prepend", no_final_newline=True, crlf=False, header=[], join_lazy=True))
+        # the user-level reader (NpDataclassReader.read_chunks) on wrapped FASTA whose records have one or several sequence lines
+        for recs in ([[1, 3], [1, 2], [1, 4]], [[1, 2], [1, 1]], [[1, 1]]):
+            for mode in ("seek", "prepend"):
+                out.append(dict(fmt="mfasta", records=recs, mode=mode, no_final_newline=False, crlf=False, width=2, via="npdataclass"))
+        out.append(dict(fmt="fastq", records=[[1, 1], [1, 2]], mode="seek", no_final_newline=False, crlf=False, width=2, via="npdataclass"))
+        out.append(dict(fmt="bed3", rows=[[1, 1, 1], [1, 2, 2]], mode="seek", no_final_newline=False, crlf=False, header=[], via="npdataclass"))
         for fmt, recsets in S.items():
             for recs in recsets:
                 for mode in ("seek", "prepend"):
@@ -98,9 +104,15 @@ class Chunks(Harness):
         if skel["mode"] == "prepend":
             reader.set_prepend_mode()
         n = len(skel.get("records", skel.get("rows")))
-        chunks = list(itertools.islice(reader.read_chunks(x["k"]), n + 3))    # a reader that stops making progress shows as extra chunks
-        parsed = [c.get_data() for c in chunks]
-        res = dict(data=[ctx.lst(c.data.raw()) for c in chunks], counts=[len(d) for d in parsed])
+        if skel.get("via") == "npdataclass":
+            # the chunks as the user-level reader delivers them (parsed tables; the stream ends at the first table without entries)
+            from bionumpy.io.npdataclassreader import NpDataclassReader
+            parsed = list(itertools.islice(NpDataclassReader(reader, lazy=False).read_chunks(x["k"]), n + 3))
+            res = dict(data=None, counts=[len(d) for d in parsed])
+        else:
+            chunks = list(itertools.islice(reader.read_chunks(x["k"]), n + 3))    # a reader that stops making progress shows as extra chunks
+            parsed = [c.get_data() for c in chunks]
+            res = dict(data=[ctx.lst(c.data.raw()) for c in chunks], counts=[len(d) for d in parsed])
         # parsed content, concatenated over the chunks
         if skel["fmt"] in F.SEQ_FORMATS:
             res["name"] = [r for d in parsed for r in ctx.lst(d.name.raw())]
@@ -142,10 +154,15 @@ class Chunks(Harness):
             return x["k"].t < big
         n = len(skel.get("records", skel.get("rows")))
         exp = self._expected(skel, x)
-        flat = [b for d in out["data"] for b in d]
-        if sum(out["counts"]) != n or len(flat) != len(exp) or any(c == 0 for c in out["counts"]):
-            return False
-        conj = [TI(g) == (e.t if hasattr(e, "t") else e) for g, e in zip(flat, exp)]
+        if out["data"] is None:
+            if sum(out["counts"]) != n or any(c == 0 for c in out["counts"]):
+                return False
+            conj = []
+        else:
+            flat = [b for d in out["data"] for b in d]
+            if sum(out["counts"]) != n or len(flat) != len(exp) or any(c == 0 for c in out["counts"]):
+                return False
+            conj = [TI(g) == (e.t if hasattr(e, "t") else e) for g, e in zip(flat, exp)]
         pe = self._parsed_expected(skel, lambda nm: x[nm].t, z3=True)
         for key, rows in list(pe.items()) + ([("joined:" + k, v) for k, v in pe.items()] if "joined" in out else []):
             got = out["joined"][key[7:]] if key.startswith("joined:") else (out[key] if key in out else out["cols"][key])
@@ -190,7 +207,7 @@ class Chunks(Harness):
             return None if k < big else f"read_chunks({k}) raised {cout} although the largest entry has {big} bytes; file {text!r}"
         n = len(skel.get("records", skel.get("rows")))
         exp = self._expected(skel, cx)
-        flat = [b for d in cout["data"] for b in d]
+        flat = [b for d in cout["data"] for b in d] if cout["data"] is not None else exp
         if sum(cout["counts"]) != n or flat != exp:
             return (f"{skel['fmt']} file {text!r} read with min_chunk_size={k} ({skel['mode']} mode): chunks hold {cout['counts']} entries "
                     f"(file has {n}); concatenated chunk bytes {bytes(flat)!r}, expected {bytes(exp)!r}")
